@@ -46,6 +46,7 @@ int main(int argc, char **argv) {
     vf_world_init(A.mtu, A.wifi, (uint8_t)A.fill);
     /* the two interfaces differ in every attribute */
     W.iface[1].flags = 0x0800; W.iface[1].iftype = 71; W.iface[1].speed = 540000; W.iface[1].wifi = !A.wifi; W.iface[1].mtu = A.mtu == 1500 ? 576 : 1500;
+    if (A.a == 2) W.iface[1].fail = 0xFFFFFFFFu;   /* every per-interface getter of B fails (also in its solo world): none of its fallbacks may depend on A */
     if (A.a == 1) W.iface[1].fail |= VF_G_MTU;      /* interface B's MTU getter fails (also in its solo world): its fallback must not depend on what interface A reported */
     build_events(0);
     if (!strcmp(A.mode, "seq3")) {      /* three interfaces: a smaller per-interface alphabet keeps the cube closable */
